@@ -121,6 +121,7 @@ class Verdict:
         self.records = {}      # signature -> {count, detail, files}
         self.known = load_known(prop)
         self.inconclusive = None
+        shutil.rmtree(os.path.join(REPLAYS, prop), ignore_errors=True)
 
     def violation(self, signature, detail, files=None):
         r = self.records.get(signature)
